@@ -102,6 +102,8 @@ def tie(tier, seed):
     out, errors = par.run(items, export_item)
     agree = total = skipped = 0
     thm_yes = thm_no = thm_other = closing = 0
+    wf_yes = wf_no_block_preds = wf_no_other = 0
+    wf_unmet = []
     thm_unmet = []
     mism = []
     shapes = {}
@@ -131,6 +133,18 @@ def tie(tier, seed):
                     thm_no += 1
                     if len(thm_unmet) < 4:
                         thm_unmet.append({"graph": item[1]})
+            if len(x) >= 5:
+                # fifth column: the call is an edit of one level that meets the conditions of the universal
+                # consistency theorem (LevelWf.level_edit_keeps_wf_b) and the hierarchy it speaks about is the one
+                # the implementation produced
+                if x[4] == 1:
+                    wf_yes += 1
+                elif x[3] in (1, 3):
+                    wf_no_block_preds += 1
+                    if len(wf_unmet) < 4:
+                        wf_unmet.append({"graph": item[1]})
+                else:
+                    wf_no_other += 1
             if x[:3] == [1, 1, 1]:
                 agree += 1
             elif len(mism) < 4:
@@ -140,4 +154,7 @@ def tie(tier, seed):
             "single_successor_insertions_not_meeting_them": thm_no, "unmet_examples": thm_unmet,
             "closings_meeting_the_hypotheses_of_the_closing_theorem": closing,
             "other_insertions": thm_other,
+            "calls_meeting_consistency_theorem_conditions": wf_yes,
+            "block_predecessor_calls_not_meeting_them": wf_no_block_preds, "consistency_unmet_examples": wf_unmet,
+            "other_calls_not_meeting_them": wf_no_other,
             "calls_by_shape": shapes, "skipped": skipped, "harness_errors": [repr(e)[:200] for e in errors][:3]}
